@@ -171,6 +171,9 @@ def frame_jobs(bindir, prop, tier, seed, faults):
     jobs += shards(bindir, "frame_driver", prop + "-spy", seed, 8, base + ["--mode", "spy", "--cases", str(spy)], 3000)
     if not faults:
         jobs += shards(bindir, "frame_driver", prop + "-delegate", seed, 8, base + ["--mode", "delegate", "--cases", str(dele)], 3000)
+    else:
+        # flush / drop through client and queuing sink while the buffered sink's writes fail now and then
+        jobs += shards(bindir, "frame_driver", prop + "-delegatefaults", seed, 4, base + ["--mode", "delegate-faults", "--cases", "400" if tier == QUICK else "6000"], 3000)
     # W3/W4: the buffered UDP / Unix sinks on real sockets, observed at the interposed sendto
     jobs += shards(bindir, "sock_driver", prop + "-sockets", seed, 4, ["--property", prop, "--mode", "buffered", "--cases", "800" if tier == QUICK else "5000"], 3000)
     if tier != QUICK and (faults or prop != "C06"):
@@ -184,7 +187,7 @@ meta("C05", level="exploration", rule="rule F1 (every write is whole pending lin
      min_evaluations=20000, must_observe={"underlying_write_attempts": 20000, "enumerated_runs": 10000})
 meta("C06", level="exploration", rule="rule F2 (Ok(n) => n == len; in-order exactly-once conservation; flush Ok leaves nothing, second flush writes nothing; nothing lost at drop; oversize written in its own emit; flush delegation through client and queuing sink); the two clauses 'a flush that returns Ok leaves nothing buffered' and 'a dropped sink has written what it accepted' are also judged on the fault-injected histories of the C07 workload (all fault assignments, random bursts, full spy channel, scripted errno); ; delegate runs also flush while the queue's thread holds a taken metric it has not handed over yet; slow-server histories on a blocking Unix socket (receive queue full, server drains with pauses): no send fails and everything arrives, incl. the final flush at drop" + FRAME_RULE,
      assumptions=FRAME_ASSUME, exhaustive_scope="W1 op-sequence enumeration within the stated small scope (the random / spy / delegate / socket parts are sampled)",
-     min_evaluations=20000, must_observe={"metrics_accepted": 20000, "enumerated_runs": 10000, "flush_through_queuing_sink_histories": 10, "flush_through_client_histories": 10, "slow_server_histories": 20, "flushes_while_the_queue_thread_held_a_taken_metric": 50})
+     min_evaluations=20000, must_observe={"metrics_accepted": 20000, "enumerated_runs": 10000, "flush_through_queuing_sink_histories": 10, "flush_through_client_histories": 10, "slow_server_histories": 20, "flushes_while_the_queue_thread_held_a_taken_metric": 50, "ok_flushes_after_earlier_failures": 50})
 meta("C19", level="exploration", rule="rule F4 (writes happen only when the next line does not fit in the remaining space - then ALL pending lines go in one datagram -, on the bypass, on flush/drop with data pending, or as the exact-fill write; a line that still fits never triggers a write); " + FRAME_RULE,
      assumptions=FRAME_ASSUME, exhaustive_scope="W1 op-sequence enumeration within the stated small scope (the random / spy / delegate / socket parts are sampled)",
      min_evaluations=20000, must_observe={"datagrams_written": 20000, "enumerated_runs": 10000})
@@ -259,7 +262,7 @@ def q_jobs(bindir, prop, tier, seed, seq_enum=True, caps="unbounded,1,2,3", drop
     if windows:
         jobs += shards(bindir, "queue_conc", prop + "-windows", seed, 2 if quick else 8, base + ["--mode", "windows", "--cases", "12" if quick else "200"], 3400)
     if storm:
-        jobs += shards(bindir, "queue_driver", prop + "-panicstorm", seed, 1, base + ["--mode", "panic-storm"], 3400)
+        jobs += shards(bindir, "queue_driver", prop + "-panicstorm", seed, 1, base + ["--mode", "panic-storm"] + ([] if quick else ["--big"]), 3400)
     if droprace:
         jobs += shards(bindir, "queue_conc", prop + "-droprace", seed, NCPU, base + ["--mode", "droprace", "--cases", "400" if quick else "30000"], 3400)
     if blocked:
